@@ -224,8 +224,12 @@ impl<'a> World<'a> {
                 let o = ev["o"].as_u64().unwrap() as usize;
                 let mode = match &mut self.iters[h.unwrap()] {
                     It::Plain(f) => {
-                        // both public paths: the inherent method and the PositionProvider trait method
-                        if o % 2 == 0 {
+                        // the three public paths: the consuming builder `with_offset` on the used
+                        // iterator, the PositionProvider trait method and the inherent method
+                        if o % 3 == 2 {
+                            let old = std::mem::replace(f, self.scanners[0].find_iter(""));
+                            *f = old.with_offset(o);
+                        } else if o % 2 == 0 {
                             PositionProvider::set_offset(f, o);
                         } else {
                             f.set_offset(o);
